@@ -806,6 +806,10 @@ func (fr *Frame) makeInterface(x *ssa.MakeInterface, st *State) Val {
 		c.smt.declareFun("iface_payload", []string{"Int"}, "Int")
 		c.smt.assume(eq(app("iface_payload", r), v.Term), "")
 	}
+	if _, isIface := x.X.Type().Underlying().(*types.Interface); !isIface {
+		c.smt.declareFun("iface_type", []string{"Int"}, "Int")
+		c.smt.assume(eq(app("iface_type", r), fmt.Sprint(goTypeTag(x.X.Type()))), "")
+	}
 	return Val{T: x.Type(), Term: r, Dyn: &DynVal{T: x.X.Type(), V: v}}
 }
 
@@ -1058,8 +1062,8 @@ func writeOnce(al *ssa.Alloc) bool {
 				if v != ssa.Value(al) {
 					return false // a closure assigns to the captured variable
 				}
-				if _, isParam := x.Val.(*ssa.Parameter); !isParam {
-					return false // only parameter spills: stored on entry, before any closure or goroutine exists
+				if _, isParam := x.Val.(*ssa.Parameter); !isParam && !storeBeforeClosures(x, al) {
+					return false // parameter spills (stored on entry), or a store that precedes every closure capturing the variable
 				}
 				stores++
 			case *ssa.MakeClosure:
@@ -1081,6 +1085,38 @@ func writeOnce(al *ssa.Alloc) bool {
 		return true
 	}
 	return readOnly(al) && stores == 1
+}
+
+// storeBeforeClosures: the store is executed before any closure that captures al is created (it precedes the
+// MakeClosure in the same block, or its block dominates the MakeClosure's), so no closure -- and no goroutine
+// running one -- ever sees the variable change.
+func storeBeforeClosures(st *ssa.Store, al *ssa.Alloc) bool {
+	refs := al.Referrers()
+	if refs == nil {
+		return false
+	}
+	idx := func(in ssa.Instruction) int {
+		for i, x := range in.Block().Instrs {
+			if x == in {
+				return i
+			}
+		}
+		return -1
+	}
+	for _, r := range *refs {
+		mc, ok := r.(*ssa.MakeClosure)
+		if !ok {
+			continue
+		}
+		if mc.Block() == st.Block() {
+			if idx(mc) < idx(st) {
+				return false
+			}
+		} else if !st.Block().Dominates(mc.Block()) {
+			return false
+		}
+	}
+	return true
 }
 
 // freeVarWriteOnce: the variable captured as fv is write-once in the function that declares it (see writeOnce).
